@@ -42,6 +42,11 @@ type funcReport struct {
 	opsSeen   map[string]int
 	capped    bool
 	emptyCatch int
+	broken    bool   // an operand stack underflow was found: the depths after it mean nothing
+	unbounded bool   // the depth at some pc keeps growing (a cycle with a positive net effect)
+	genEnd    int    // generator functions: offset of the final STOP_ITERATION (len-4), else -1
+	kind      string // plain | generator | async
+	joinPC    int
 }
 
 func (fr *funcReport) add(sig, detail string) {
@@ -220,21 +225,13 @@ func crossCheckDisassembler(fn *vm.BytecodeFunction, fr *funcReport) {
 					fmt.Sprintf("function %s: Disassemble panicked: %v", fr.name, p))
 			}
 		}()
-		shallow := *fn // do not recurse into nested functions: each is checked on its own
-		shallow.Values = nil
-		hasValueOps := false
-		for _, in := range fr.instrs {
-			if valueIndexOf(in) >= 0 {
-				hasValueOps = true
+		for _, f := range fr.findings {
+			if strings.HasPrefix(f.sig, "decode: ") || strings.HasPrefix(f.sig, "disassembler: ") {
+				return // DisassembleInstruction already failed on an instruction: whatever Disassemble does is a consequence
 			}
 		}
-		target := fn
-		if !hasValueOps {
-			target = &shallow
-		}
-		if err := disassembleNoNested(target); err != nil {
-			ops := culpritOps(fr)
-			fr.add("disassembler: Disassemble returns an error ("+normErr(err.Error())+")"+ops,
+		if err := disassembleNoNested(fn); err != nil {
+			fr.add("disassembler: Disassemble returns an error ("+normErr(err.Error())+")",
 				fmt.Sprintf("function %s: Disassemble returned %q", fr.name, err))
 		}
 	}()
@@ -388,6 +385,23 @@ func kindOf(v value.Value) string {
 
 func structural(fn *vm.BytecodeFunction, fr *funcReport) {
 	n := len(fn.Instructions)
+	fr.genEnd = -1
+	fr.kind = "plain"
+	if strings.HasPrefix(fr.name, "<defer>") {
+		fr.kind = "defer-closure"
+	}
+	if fr.opsSeen["PROMISE"] > 0 {
+		fr.kind = "async"
+	}
+	if fr.opsSeen["GENERATOR"] > 0 {
+		fr.kind = "generator"
+		// CallGeneratorNext parks a failed generator at Instructions[len-4]: STOP_ITERATION followed by a 3-byte LOOP
+		if in := fr.at[n-4]; in != nil && in.name == "STOP_ITERATION" && fr.at[n-3] != nil && fr.at[n-3].name == "LOOP" {
+			fr.genEnd = n - 4
+		} else {
+			fr.add("generator function does not end with STOP_ITERATION, LOOP (the VM parks a finished generator at len-4)", fmt.Sprintf("function %s", fr.name))
+		}
+	}
 	// jump targets
 	for _, in := range fr.instrs {
 		if in.target >= 0 || in.shape.jump != jNone {
@@ -559,6 +573,11 @@ func enclosing(fr *funcReport, off int) int {
 }
 
 func (fr *funcReport) inPoly(pc int) bool {
+	if fr.genEnd >= 0 && pc >= fr.genEnd {
+		// the closing STOP_ITERATION/LOOP pair of a generator is entered from every `return` and every uncaught
+		// error with whatever the frame holds at that point
+		return true
+	}
 	for _, r := range fr.poly {
 		if pc >= r[0] && pc < r[1] {
 			return true
@@ -580,11 +599,13 @@ const (
 	aFalse
 	aInt
 	aVal // constant pool entry n
+	aSel // the case index pushed by SELECT: n = bit mask of the indices still possible, id identifies the value
 )
 
 type aval struct {
-	k akind
-	n int32
+	k  akind
+	n  int32
+	id int32
 }
 
 var top = aval{}
@@ -600,13 +621,14 @@ func (s astate) key() string {
 	// only the non-top entries distinguish states of the same depth
 	for i, v := range s.stack {
 		if v.k != aTop {
-			fmt.Fprintf(&b, ",%d=%d/%d", i, v.k, v.n)
+			fmt.Fprintf(&b, ",%d=%d/%d/%d", i, v.k, v.n, v.id)
 		}
 	}
 	return b.String()
 }
 
 const maxStatesPerFunction = 60000
+const maxDepthsPerPC = 16
 
 type explorer struct {
 	fn    *vm.BytecodeFunction
@@ -614,6 +636,9 @@ type explorer struct {
 	seen  map[string]bool
 	work  []astate
 	depth map[int]map[int]bool
+	// for the join oracle: which instruction produced each (pc, depth)
+	via map[[2]int]*instr
+	sel int32
 }
 
 func (ex *explorer) push(from *instr, s astate) {
@@ -626,6 +651,9 @@ func (ex *explorer) push(from *instr, s astate) {
 		}
 		return
 	}
+	if ex.fr.unbounded {
+		return
+	}
 	k := s.key()
 	if ex.seen[k] {
 		return
@@ -634,12 +662,22 @@ func (ex *explorer) push(from *instr, s astate) {
 		ex.fr.capped = true
 		return
 	}
-	ex.seen[k] = true
-	ex.work = append(ex.work, s)
 	if ex.depth[s.pc] == nil {
 		ex.depth[s.pc] = map[int]bool{}
 	}
-	ex.depth[s.pc][len(s.stack)] = true
+	if !ex.depth[s.pc][len(s.stack)] {
+		if len(ex.depth[s.pc]) >= maxDepthsPerPC {
+			ex.fr.unbounded = true
+			ex.fr.joinPC = s.pc
+			return
+		}
+		ex.depth[s.pc][len(s.stack)] = true
+		if from != nil {
+			ex.via[[2]int{s.pc, len(s.stack)}] = from
+		}
+	}
+	ex.seen[k] = true
+	ex.work = append(ex.work, s)
 }
 
 func cloneStack(s []aval, extra int) []aval {
@@ -648,8 +686,24 @@ func cloneStack(s []aval, extra int) []aval {
 	return out
 }
 
+// joinPlace says what kind of place a pc is, for signatures: the exit of a loop (the instruction before it is a
+// LOOP), the head of a loop (a LOOP jumps to it) or something else.
+func joinPlace(fr *funcReport, pc int) string {
+	for _, in := range fr.instrs {
+		if in.name == "LOOP" && in.target == pc {
+			return "at a loop head"
+		}
+	}
+	for _, in := range fr.instrs {
+		if in.next == pc && in.name == "LOOP" {
+			return "at a loop exit"
+		}
+	}
+	return "at " + strip816(fr.at[pc].name)
+}
+
 func explore(fn *vm.BytecodeFunction, fr *funcReport) {
-	ex := &explorer{fn: fn, fr: fr, seen: map[string]bool{}, depth: map[int]map[int]bool{}}
+	ex := &explorer{fn: fn, fr: fr, seen: map[string]bool{}, depth: map[int]map[int]bool{}, via: map[[2]int]*instr{}}
 	// entry: self + parameters
 	ex.push(nil, astate{0, make([]aval, fr.entry)})
 	fr.trans-- // the entry is not a transition
@@ -683,8 +737,21 @@ func explore(fn *vm.BytecodeFunction, fr *funcReport) {
 		fr.notAn = append(fr.notAn, op)
 	}
 	sort.Strings(fr.notAn)
-	fr.analysed = len(fr.notAn) == 0 && !fr.capped
-	if !fr.analysed {
+	fr.analysed = len(fr.notAn) == 0 && !fr.capped && !fr.broken && !fr.unbounded
+	if len(fr.notAn) > 0 || fr.capped || fr.broken {
+		return
+	}
+	viaName := func(pc, d int) string {
+		if in := ex.via[[2]int{pc, d}]; in != nil {
+			return strip816(in.name)
+		}
+		return "?"
+	}
+	if fr.unbounded {
+		pc := fr.joinPC
+		ds := fr.depths[pc]
+		fr.add("operand stack grows without bound "+joinPlace(fr, pc)+" (back edge via "+viaName(pc, ds[len(ds)-1])+")",
+			fmt.Sprintf("function %s offset %d (%s) is reached with depths %v and more: a cycle of the control-flow graph has a positive net stack effect", fr.name, pc, fr.at[pc].name, ds))
 		return
 	}
 	// a single depth per pc outside do..finally sections
@@ -694,17 +761,11 @@ func explore(fn *vm.BytecodeFunction, fr *funcReport) {
 	}
 	sort.Ints(pcs)
 	for _, pc := range pcs {
-		if len(fr.depths[pc]) > 1 && !fr.inPoly(pc) {
-			fr.add("operand stack depth differs where paths join op="+fr.at[pc].name,
-				fmt.Sprintf("function %s offset %d (%s) is reached with depths %v (frame slots incl. %d locals); not inside a do..finally section", fr.name, pc, fr.at[pc].name, fr.depths[pc], fr.nlocals))
-			break
-		}
-	}
-	// unbounded growth inside finally sections shows as many depths
-	for _, pc := range pcs {
-		if len(fr.depths[pc]) > 12 {
-			fr.add("operand stack depth unbounded at op="+fr.at[pc].name,
-				fmt.Sprintf("function %s offset %d (%s) is reached with %d different depths %v", fr.name, pc, fr.at[pc].name, len(fr.depths[pc]), fr.depths[pc]))
+		ds := fr.depths[pc]
+		if len(ds) > 1 && !fr.inPoly(pc) {
+			fr.add("operand stack depth differs where paths join "+joinPlace(fr, pc)+" (deeper path arrives via "+viaName(pc, ds[len(ds)-1])+")",
+				fmt.Sprintf("function %s offset %d (%s) is reached with depths %v (frame slots incl. %d locals), the deepest one over the edge from %s; the offset is not inside a do..finally section",
+					fr.name, pc, fr.at[pc].name, ds, fr.nlocals, viaName(pc, ds[len(ds)-1])))
 			break
 		}
 	}
@@ -721,6 +782,15 @@ func finallyEntryFor(fn *vm.BytecodeFunction, in *instr) *vm.CatchEntry {
 	return nil
 }
 
+// refineSel narrows every copy of the select index with the given id.
+func refineSel(st []aval, id int32, mask int32) {
+	for i := range st {
+		if st[i].k == aSel && st[i].id == id {
+			st[i].n = mask
+		}
+	}
+}
+
 func (ex *explorer) step(s astate, in *instr, unknown map[string]bool) {
 	fr, fn := ex.fr, ex.fn
 	depth := len(s.stack)
@@ -731,8 +801,9 @@ func (ex *explorer) step(s astate, in *instr, unknown map[string]bool) {
 	}
 	need := func(n int) bool {
 		if depth-n < floor {
+			fr.broken = true
 			fr.add("operand stack underflow op="+strip816(in.name),
-				fmt.Sprintf("function %s offset %d: %s needs %d operand(s), the frame holds %d slots of which %d are self/parameters/locals", fr.name, in.pc, in.name, n, depth, floor))
+				fmt.Sprintf("%s function %s offset %d: %s needs %d operand(s), the frame holds %d slots of which %d are self/parameters/locals: the instruction consumes a local variable slot", fr.kind, fr.name, in.pc, in.name, n, depth, floor))
 			return false
 		}
 		return true
@@ -795,49 +866,90 @@ func (ex *explorer) step(s astate, in *instr, unknown map[string]bool) {
 		if strings.HasPrefix(name, "PREP_LOCALS") {
 			vals = make([]aval, in.operands[0])
 		}
+		if name == "SELECT" {
+			// [result, index]: the index is one of the cases of the Select value
+			if t := topOf(s.stack); t.k == aVal {
+				if sel, ok := refOf(fn.Values[t.n]).(*vm.Select); ok && len(sel.Cases) > 0 && len(sel.Cases) < 31 {
+					ex.sel++
+					vals[1] = aval{aSel, int32(1)<<uint(len(sel.Cases)) - 1, ex.sel}
+				}
+			}
+		}
 		goTo(in.next, pop, vals...)
 	case kJump: // unconditional
 		goTo(in.target, 0)
 	case kCond:
-		if !need(e.pop) {
+		extra := e.popTaken
+		if e.popFall > extra {
+			extra = e.popFall
+		}
+		if !need(e.pop + extra) {
 			return
 		}
 		takeJump, takeFall := true, true
+		var selID, selJump, selFall int32 = 0, 0, 0
+		if e.cmpEq != 0 {
+			// comparison of the select index with a constant: only feasible outcomes are followed
+			a, b := peek(0), peek(1)
+			if a.k == aSel {
+				a, b = b, a
+			}
+			if a.k == aInt && b.k == aSel && a.n >= 0 && a.n < 31 {
+				bit := int32(1) << uint(a.n)
+				eq, ne := b.n&bit, b.n&^bit
+				selID = b.id
+				if e.cmpEq > 0 { // jump if equal
+					selJump, selFall = eq, ne
+				} else { // jump unless equal
+					selJump, selFall = ne, eq
+				}
+				takeJump, takeFall = selJump != 0, selFall != 0
+			}
+		}
 		if e.flag != 0 { // a branch on the value on top that is not popped: prune with known constants
 			v := peek(0)
-			if v.k != aTop {
-				j := false
+			decided, j := false, false
+			switch v.k {
+			case aUndef:
 				switch e.flag {
-				case fUnlessUndef: // JUMP_UNLESS_UNP: jumps when top is not undefined
-					j = v.k != aUndef
-				case fIfTruthy: // JUMP_IF_NP
-					j = v.k != aNil && v.k != aFalse && v.k != aUndef
-					if v.k == aUndef {
-						takeJump, takeFall = true, true // truthiness of undefined is not modelled
-						break
-					}
-				case fIfNil: // JUMP_IF_NIL_NP
-					j = v.k == aNil
-				case fUnlessNil: // JUMP_UNLESS_NNP
-					j = v.k != aNil
-				case fUnlessTruthy: // JUMP_UNLESS_NP
-					j = v.k == aNil || v.k == aFalse
-					if v.k == aUndef {
-						takeJump, takeFall = true, true
-						break
-					}
+				case fUnlessUndef:
+					decided, j = true, false
+				case fIfNil:
+					decided, j = true, false
+				case fUnlessNil:
+					decided, j = true, true
 				}
-				if v.k != aUndef || e.flag == fUnlessUndef || e.flag == fIfNil || e.flag == fUnlessNil {
-					takeJump, takeFall = j, !j
-				}
+			case aNil:
+				decided = true
+				j = e.flag == fUnlessUndef || e.flag == fIfNil || e.flag == fUnlessTruthy
+			case aFalse:
+				decided = true
+				j = e.flag == fUnlessUndef || e.flag == fUnlessNil || e.flag == fUnlessTruthy
+			case aTrue, aInt, aVal:
+				decided = true
+				j = e.flag == fUnlessUndef || e.flag == fUnlessNil || e.flag == fIfTruthy
+			}
+			if decided {
+				takeJump, takeFall = j, !j
 			}
 		}
 		if takeJump {
-			goTo(in.target, e.pop+e.popTaken)
+			st := cloneStack(s.stack, 0)
+			if selID != 0 {
+				refineSel(st, selID, selJump)
+			}
+			ex.push(in, astate{in.target, st[:depth-e.pop-e.popTaken]})
 		}
 		if takeFall {
-			vals := make([]aval, e.pushFall)
-			goTo(in.next, e.pop+e.popFall, vals...)
+			st := cloneStack(s.stack, e.pushFall)
+			if selID != 0 {
+				refineSel(st, selID, selFall)
+			}
+			st = st[:depth-e.pop-e.popFall]
+			for i := 0; i < e.pushFall; i++ {
+				st = append(st, top)
+			}
+			ex.push(in, astate{in.next, st})
 		}
 	case kReturn:
 		if e.pop > 0 && !need(e.pop) {
@@ -845,6 +957,12 @@ func (ex *explorer) step(s astate, in *instr, unknown map[string]bool) {
 		}
 	case kThrow:
 		need(e.pop)
+	case kStopIteration:
+		// the marker is pushed and returned as an error; CallGeneratorNext parks the generator at the closing
+		// STOP_ITERATION (len-4) with the frame as it is here
+		if fr.genEnd >= 0 {
+			goTo(fr.genEnd, 0)
+		}
 	case kReturnFinally:
 		if !need(1) {
 			return
@@ -869,7 +987,7 @@ func (ex *explorer) step(s astate, in *instr, unknown map[string]bool) {
 				return
 			}
 			st := cloneStack(s.stack, 0)
-			st[depth-1] = aval{aInt, cnt.n - 1}
+			st[depth-1] = aval{k: aInt, n: cnt.n - 1}
 			ex.push(in, astate{ce.JumpAddress + 4, st})
 			return
 		}
@@ -962,8 +1080,6 @@ func listing(fn *vm.BytecodeFunction) string {
 				fmt.Fprintf(&b, "<Disassemble panicked: %v>", p)
 			}
 		}()
-		shallow := *fn
-		_ = shallow
 		offset := 0
 		for offset < len(fn.Instructions) {
 			next, err := fn.DisassembleInstruction(&b, offset)
